@@ -1,13 +1,17 @@
 package main
 
 import (
+	"path/filepath"
+	"os"
 	"fmt"
 	"math/rand"
 	"regexp"
 	"sort"
 	"strings"
 
+	vast "verif/ast"
 	"verif/gen"
+	"verif/mut"
 	"verif/ref/rtypes"
 	"verif/sup"
 )
@@ -31,7 +35,7 @@ func checkC11() int {
 	c := NewCheck("C11")
 	pool := newPool()
 	r := rand.New(rand.NewSource(subSeed(c.Seed, 1111)))
-	c.Rule = "G3: prefixes of every corpus file (byte granularity, sampled in quick), 1-3 byte/token edits of corpus files, random token soups over the lexer's alphabet plus out-of-alphabet runes, random bytes, grammar-shaped random programs, pathological shapes (10^4-deep brackets, 20 000-factor types, 64 KiB lines, unterminated comments and strings of comment openers, thousands of declarations); oracle: the worker survives, scanner reads <= 4*len+64 (hook; exceeding it aborts, so a spin is a verdict not a hang), bytes allocated by the call <= 2 MiB + 6000*len; non-trivial = distinct text"
+	c.Rule = "G3: prefixes of every corpus file (byte granularity, sampled in quick), 1-3 byte/token edits of corpus files, random token soups over the lexer's alphabet plus out-of-alphabet runes, random bytes, grammar-shaped random programs, pathological shapes (10^4-deep brackets, 20 000-factor types, 64 KiB lines, unterminated comments and strings of comment openers, thousands of declarations), environments of 65..150 distinct definitions (long unannotated protocols, large G2 environments) and G1 programs made large in one respect (alias chains, padding definitions / functions, chains of cuts, long names, many parameters); oracle: the worker survives, scanner reads <= 4*len+64 (hook; exceeding it aborts, so a spin is a verdict not a hang), bytes allocated by the call <= 2 MiB + 6000*len; non-trivial = distinct text"
 	c.Assumptions = []string{"time is represented by its two deterministic proxies, scanner steps and bytes allocated; wall clock is not a verdict"}
 	var texts, tags []string
 	add := func(tag, t string) { texts = append(texts, t); tags = append(tags, tag) }
@@ -96,6 +100,22 @@ func checkC11() int {
 	for _, n := range []int{12, 18, 30} {
 		add("chains", rtypes.DefsText(rtypes.DeepChains(n, 3, "")))
 		add("chains", rtypes.DefsText(rtypes.DeepChains(n, 2, "lin")))
+	}
+	// many distinct definitions (65..150), among them recursive and unannotated ones: long
+	// protocols, large G2 environments, G1 programs padded with unused definitions / functions,
+	// long alias chains, long chains of cuts, long names
+	for k := 0; k < c.pick(12, 150); k++ {
+		add("many-defs", rtypes.DefsText(rtypes.GenChainDefs(r)))
+	}
+	for k, n := 0, 0; n < c.pick(12, 150) && k < 100000; k++ {
+		if defs, _ := rtypes.GenDefs(r, 10); len(defs) > 60 {
+			add("many-defs", rtypes.DefsText(defs))
+			n++
+		}
+	}
+	for _, pc := range genCases(c, c.pick(40, 400), 11, nil) {
+		q, kind := mut.Inflate(pc.P, r, "")
+		add("inflated-"+kind, q.Text())
 	}
 	add("decls", strings.Repeat("type A = 1\n", 250))
 	add("decls", strings.Repeat("type A = 1\n", c.pick(1000, 4000)))
@@ -191,14 +211,45 @@ func checkC12() int {
 	c := NewCheck("C12")
 	pool := newPool()
 	r := rand.New(rand.NewSource(subSeed(c.Seed, 1212)))
-	c.Rule = "(a) grammatical G1 programs and G2 definition sets: the parse result must have exactly the declarations that were printed (processes with their provider lists, functions with parameter names, types, execs); (b) definitely ungrammatical edits of them: one of 12 out-of-alphabet runes (incl. NUL) or an unmatched closing bracket inserted at a byte offset, or the text cut right after a token that cannot end a sentence: must be rejected; non-trivial = distinct edited text"
+	c.Rule = "(a) grammatical G1 programs (a third with explicit polarities on 40 % of the names and names with every initial letter; half of them also made large in one respect: long names, alias chains, padding, chains of cuts; a few parallel compositions of 60..90 programs, 70..200 KiB) and G2 definition sets: the parse result must have exactly the declarations that were printed (processes with their provider lists, functions with parameter names, types, execs) and the bag of names, labels and called functions read from the bodies must be the bag written (polarity marks included); (b) definitely ungrammatical edits of them: one of 12 out-of-alphabet runes (incl. NUL) or an unmatched closing bracket inserted at a byte offset, or the text cut right after a token that cannot end a sentence: must be rejected; non-trivial = distinct edited text"
 	c.Assumptions = []string{"only edits that are ungrammatical under any reading of the grammar are used; no reference grammar decides acceptance"}
-	cases := genCases(c, c.pick(60, 2000), 12, mixedOpt)
+	cases := genCases(c, c.pick(60, 2000), 12, func(i int) *gen.Opt {
+		if i%3 == 2 {
+			// explicit polarities on many names, names with every initial letter
+			o := polOpt(i)
+			o.Pol, o.Alpha = 40, 60
+			return o
+		}
+		return mixedOpt(i)
+	})
+	// the same programs made large in one respect (long names, alias chains, padding, chains of cuts)
+	for i, pc := range cases[:len(cases)/2] {
+		q, kind := mut.Inflate(pc.P, r, []string{"long-names", ""}[i%2])
+		cases = append(cases, &progCase{ID: pc.ID + "-" + kind, P: q, Text: q.Text(), Source: "G1-inflated"})
+	}
 	type item struct {
 		text, kind string
 		pc         *progCase
 	}
 	var items []item
+	// texts well beyond 64 KiB: parallel compositions of 60..90 programs; the same with a
+	// character outside the alphabet, or a cut, in their last quarter
+	for k := 0; k < c.pick(3, 30); k++ {
+		var ps []*vast.Program
+		for _, pc := range genCases(c, 60+r.Intn(31), 1200+k, nil) {
+			ps = append(ps, pc.P)
+		}
+		big := mut.Compose(ps)
+		bpc := &progCase{ID: fmt.Sprintf("big%d", k), P: big, Text: big.Text(), Source: "G1-composed"}
+		items = append(items, item{bpc.Text, "grammatical", bpc})
+		t := bpc.Text
+		for q := 0; q < 6; q++ {
+			pos := len(t)*3/4 + r.Intn(len(t)/4)
+			items = append(items, item{t[:pos] + illegalRunes[r.Intn(len(illegalRunes))] + t[pos:], "illegal-rune", bpc})
+		}
+		items = append(items, item{t + "\nprc[", "truncated-after:prc[", bpc}, item{t + "\n) ) )", "unmatched-closer", bpc})
+		c.Extra["largest_text_bytes"] = len(t)
+	}
 	for _, pc := range cases {
 		items = append(items, item{pc.Text, "grammatical", pc})
 	}
@@ -222,6 +273,14 @@ func checkC12() int {
 	envs := genEnvs(c, c.pick(100, 3000), 12, 0)
 	for _, e := range envs {
 		items = append(items, item{e.text, "grammatical-defs", nil})
+	}
+	// witnesses of repaired defects (all grammatical)
+	if fs, _ := filepath.Glob("/verif/known/fixed/*.grits"); len(fs) > 0 {
+		for _, f := range fs {
+			if b, err := os.ReadFile(f); err == nil {
+				items = append(items, item{string(b), "grammatical-witness", nil})
+			}
+		}
 	}
 	perProg := c.pick(60, 90)
 	for _, pc := range cases {
@@ -283,6 +342,21 @@ func checkC12() int {
 			if d := declDiff(it.pc, o.Res.Counts); d != "" {
 				w["difference"] = d
 				c.Violation("the parsed program does not have the declarations of the text ("+strings.SplitN(d, ":", 2)[0]+")", w)
+				continue
+			}
+			if it.pc.P != nil {
+				// every name, label and function written in a body must be in the parsed bodies,
+				// spelt as written (with its polarity mark), and nothing else
+				want, got := vast.IdentBag(it.pc.P), o.Res.Counts.Idents
+				if d := bagDiff(want, got); d != "" {
+					w["difference"] = d
+					c.Violation("the names read by the parser are not the names written in the text", w)
+					continue
+				}
+			}
+		case it.kind == "grammatical-witness":
+			if !o.Res.ParseOK {
+				c.Violation("a grammatical program is rejected by the parser: "+errClass(o.Res.ParseErr), w)
 				continue
 			}
 		case it.kind == "grammatical-defs":
@@ -363,4 +437,28 @@ func declDiff(pc *progCase, got *sup.Counts) string {
 		}
 	}
 	return ""
+}
+
+// bagDiff: the first few elements in which two sorted bags differ.
+func bagDiff(want, got []string) string {
+	cnt := map[string]int{}
+	for _, x := range want {
+		cnt[x]++
+	}
+	for _, x := range got {
+		cnt[x]--
+	}
+	var d []string
+	for k, v := range cnt {
+		if v > 0 {
+			d = append(d, fmt.Sprintf("written, not read: %s x%d", k, v))
+		} else if v < 0 {
+			d = append(d, fmt.Sprintf("read, not written: %s x%d", k, -v))
+		}
+	}
+	sort.Strings(d)
+	if len(d) > 6 {
+		d = d[:6]
+	}
+	return strings.Join(d, "; ")
 }
